@@ -90,7 +90,9 @@ Fixpoint sb_tbl (t : tbl) : sbody dval :=
   | Tbl items _ _ _ _ _ =>
     map (fun kv => (k_key (fst kv),
                     match snd kv with
-                    | ITable sub => if t_dotted sub then SD (sb_tbl sub) else ST (negb (shown sub)) (sb_tbl sub)
+                    | ITable sub =>
+                      if t_dotted sub then (if has_line sub then SD (sb_tbl sub) else ST true (sb_tbl sub))
+                      else ST (negb (shown sub)) (sb_tbl sub)
                     | IAot ts _ => SA (map sb_tbl ts)
                     | IValue v => sn_dn (dn_item (IValue v))
                     | INone => SA []
@@ -98,7 +100,11 @@ Fixpoint sb_tbl (t : tbl) : sbody dval :=
   end.
 Definition sn_item (it : item) : snode dval :=
   match it with
-  | ITable sub => if t_dotted sub then SD (sb_tbl sub) else ST (negb (shown sub)) (sb_tbl sub)
+  | ITable sub =>
+    (* a table made of dotted keys lives in the lines of the enclosing section; when it has no line left, the text
+       mentions it only through the headers below it: it is a super-table of those *)
+    if t_dotted sub then (if has_line sub then SD (sb_tbl sub) else ST true (sb_tbl sub))
+    else ST (negb (shown sub)) (sb_tbl sub)
   | IAot ts _ => SA (map sb_tbl ts)
   | IValue v => sn_dn (dn_item (IValue v))
   | INone => SA []
@@ -127,6 +133,19 @@ Definition tflat_item (parent : list key) (k : key) (it : item) : list (list key
   end.
 Lemma tflat_eq parent t : tflat parent t = flat_map (fun kv => tflat_item parent (fst kv) (snd kv)) (t_items t).
 Proof. destruct t; reflexivity. Qed.
+
+Lemma has_line_eq t : has_line t = existsb (fun kv => match snd kv with IValue _ => true | ITable sub => t_dotted sub && has_line sub | _ => false end) (t_items t).
+Proof. destruct t; reflexivity. Qed.
+
+(* a table without a line of its own gives no line *)
+Lemma no_line_tflat : forall t parent, has_line t = false -> tflat parent t = [].
+Proof.
+  induction t as [items d im dt p sp IH] using tbl_sub_ind. intros parent. rewrite has_line_eq, tflat_eq. cbn [t_items].
+  induction items as [|[k it] items IHi]; [reflexivity|]. inversion IH as [|? ? H1 H2]; subst. cbn [existsb flat_map fst snd].
+  intro H. apply orb_false_iff in H as [Ha Hb]. rewrite (IHi H2 Hb), app_nil_r.
+  destruct it as [|v|sub|ts asp]; try reflexivity; [discriminate|]. cbn [tflat_item]. destruct (t_dotted sub); [|reflexivity].
+  cbn [andb] in Ha. apply (H1 _ Ha).
+Qed.
 
 (* sizes *)
 Lemma tbl_size_ksz items d im dt p sp : tbl_size (Tbl items d im dt p sp) = S (ksz items).
@@ -188,7 +207,8 @@ Proof.
   destruct it as [|v|sub|ts asp]; cbn [sn_item snd] in *.
   - reflexivity.
   - rewrite dpart_node_sn_dn. cbn [flat_map fst snd]. rewrite app_nil_r. apply iflat_item_dflat.
-  - destruct (t_dotted sub); [|reflexivity]. cbn [dpart_node flat_map fst snd]. rewrite app_nil_r. fold (dpart dval (sb_tbl sub)).
+  - destruct (t_dotted sub); [|reflexivity]. destruct (has_line sub) eqn:Hl; [|cbn [dpart_node flat_map]; rewrite (no_line_tflat sub _ Hl); reflexivity].
+    cbn [dpart_node flat_map fst snd]. rewrite app_nil_r. fold (dpart dval (sb_tbl sub)).
     rewrite (H1 (parent ++ [k])). cbn [dflat_node]. fold (dflat dval (dpart dval (sb_tbl sub))). rewrite !map_map. apply map_ext.
     intros [q x]. cbn [fst snd]. rewrite Ek, <- app_assoc. reflexivity.
   - reflexivity.
@@ -205,7 +225,7 @@ Lemma all_P_Forall' {A} (P : A -> Prop) l : all_P P l <-> Forall P l.
 Proof. induction l as [|y l IH]; cbn [all_P]; split; intro H; [constructor|exact I|destruct H; constructor; tauto|inversion H; tauto]. Qed.
 
 Definition lineish (it : item) : bool :=
-  match it with IValue _ => true | ITable sub => t_dotted sub | _ => false end.
+  match it with IValue _ => true | ITable sub => t_dotted sub && has_line sub | _ => false end.
 
 Lemma tbl_wf_items top t :
   tbl_wf top t ->
@@ -215,7 +235,8 @@ Lemma tbl_wf_items top t :
        match it with
        | INone => False
        | IValue _ => pair_wf true it
-       | ITable sub => tbl_wf false sub /\ (if t_dotted sub then has_line sub = true else shown sub = true \/ prints_header sub = true)
+       | ITable sub => tbl_wf false sub /\ (if t_dotted sub then has_line sub = true \/ prints_header sub = true
+                                            else shown sub = true \/ prints_header sub = true)
        | IAot ts _ => ts <> [] /\ forall e, In e ts -> t_dotted e = false /\ tbl_wf false e
        end.
 Proof.
@@ -224,16 +245,9 @@ Proof.
   destruct it as [|v|sub|ts asp]; auto. destruct Hit as [Hne Hts]. split; [exact Hne|]. intros e He. exact (all_P_In _ _ _ Hts He).
 Qed.
 
-Lemma has_line_eq t : has_line t = existsb (fun kv => match snd kv with IValue _ => true | ITable sub => t_dotted sub && has_line sub | _ => false end) (t_items t).
-Proof. destruct t; reflexivity. Qed.
-
 Lemma has_line_wf top t : tbl_wf top t -> has_line t = existsb (fun kv => lineish (snd kv)) (t_items t).
 Proof.
-  intro Hw. destruct (tbl_wf_items top t Hw) as [_ Hit]. rewrite has_line_eq.
-  induction (t_items t) as [|[k it] l IH]; [reflexivity|]. cbn [existsb snd].
-  rewrite IH by (intros k' it' Hin; apply Hit; right; exact Hin). f_equal.
-  specialize (Hit k it (or_introl eq_refl)). destruct Hit as [_ Hit]. destruct it as [|v|sub|ts asp]; try reflexivity.
-  cbn [lineish]. destruct Hit as [_ Hs]. destruct (t_dotted sub); [rewrite Hs|]; reflexivity.
+  intros _. rewrite has_line_eq. induction (t_items t) as [|[k it] l IH]; [reflexivity|]. cbn [existsb snd]. rewrite IH. f_equal.
 Qed.
 
 Lemma dpart_nil_iff t : (forall k, ~ In (k, INone) (t_items t)) ->
@@ -244,7 +258,7 @@ Proof.
   destruct it as [|v|sub|ts asp]; cbn [sn_item lineish].
   - exfalso. apply (Hn k). left. reflexivity.
   - rewrite dpart_node_sn_dn. split; discriminate.
-  - destruct (t_dotted sub); cbn [dpart_node orb app]; [split; discriminate|exact IH'].
+  - destruct (t_dotted sub); [destruct (has_line sub)|]; cbn [dpart_node andb orb app]; [split; discriminate|exact IH'|exact IH'].
   - cbn [dpart_node orb app]. exact IH'.
 Qed.
 Lemma no_none top t : tbl_wf top t -> forall k, ~ In (k, INone) (t_items t).
@@ -270,7 +284,8 @@ Proof.
   intro H. apply orb_true_iff in H as [H|H].
   - intro E. apply app_eq_nil in E as [E _]. destruct it as [|v|sub|ts asp]; try discriminate; cbn [sn_item snd] in *.
     + destruct (t_dotted sub) eqn:Ed.
-      * cbn [negb andb orb] in H. rewrite node_secs_SD in E. exact (H1 _ H E).
+      * cbn [negb andb orb] in H. destruct (has_line sub); [rewrite node_secs_SD in E; exact (H1 _ H E)|].
+        rewrite node_secs_ST in E. cbn [app] in E. unfold body_stmts in E. apply app_eq_nil in E as [_ E]. exact (H1 _ H E).
       * rewrite node_secs_ST in E. cbn [negb andb orb] in H. destruct (shown sub); [discriminate|]. cbn [negb app orb] in *.
         unfold body_stmts in E. apply app_eq_nil in E as [_ E]. exact (H1 _ H E).
     + destruct ts; [discriminate|]. rewrite node_secs_SA in E. discriminate.
@@ -291,7 +306,10 @@ Proof.
   - contradiction.
   - apply swf_sn_dn. apply (dn_item_wf true). exact Hi.
   - destruct Hi as [Hs Hf]. destruct (IH false Hs) as [Hnd' Hl']. destruct (t_dotted sub).
-    + constructor; [exact Hnd'|exact Hl'|]. intro E. apply (has_line_dpart false sub Hs) in E. congruence.
+    + destruct (has_line sub) eqn:Hln.
+      * constructor; [exact Hnd'|exact Hl'|]. intro E. apply (has_line_dpart false sub Hs) in E. congruence.
+      * constructor; [exact Hnd'|exact Hl'|]. intros _. destruct Hf as [Hf|Hf]; [discriminate|].
+        split; [apply (has_line_dpart false sub Hs), Hln|apply prints_header_secs, Hf].
     + constructor; [exact Hnd'|exact Hl'|]. intro Hh. apply negb_true_iff in Hh. destruct Hf as [Hf|Hf]; [congruence|].
       split; [|apply prints_header_secs, Hf]. apply (has_line_dpart false sub Hs). unfold shown in Hh. apply negb_false_iff in Hh.
       apply andb_true_iff in Hh as [_ Hh]. apply negb_true_iff in Hh. exact Hh.
